@@ -1,5 +1,6 @@
 // K-diff ops for C01/C03/C04/C14: real Http::RequestParser / ResponseParser driven like Handler::onInput
 #include "common.h"
+#include <sstream>
 #include <pistache/http.h>
 #include <pistache/http_headers.h>
 
@@ -87,6 +88,25 @@ void registerParser(std::map<std::string, Op>& ops)
             auto raw = p.request.headers().tryGetRaw(name);
             bool typed = p.request.headers().has(name);
             out += " " + (raw.has_value() ? toHex(raw->value()) : std::string("~")) + (typed ? "/T" : "/-");
+            if (typed) {
+                // WHICH occurrence does the typed header hold?  every occurrence of the field in the message is parsed on its own and
+                // written; the typed header's written form is looked up among them (1 = the first occurrence, ? = none of them)
+                auto wr = [](const Header::Header& h) { std::ostringstream os; h.write(os); return os.str(); };
+                std::string mine = wr(*p.request.headers().tryGet(name));
+                std::string lname = name; for (auto& ch : lname) ch = static_cast<char>(tolower(static_cast<unsigned char>(ch)));
+                int idx = 0, found = 0; size_t pos = msg.find("\r\n");
+                while (pos != std::string::npos && !found) {
+                    size_t e = msg.find("\r\n", pos + 2); if (e == std::string::npos || e == pos + 2) break;
+                    std::string line = msg.substr(pos + 2, e - pos - 2); pos = e;
+                    size_t c = line.find(':'); if (c == std::string::npos) continue;
+                    std::string ln = line.substr(0, c); for (auto& ch : ln) ch = static_cast<char>(tolower(static_cast<unsigned char>(ch)));
+                    if (ln != lname) continue;
+                    ++idx;
+                    std::string v = line.substr(c + 1); while (!v.empty() && v[0] == ' ') v.erase(0, 1);
+                    try { auto h = Header::Registry::instance().makeHeader(name); h->parse(v); if (wr(*h) == mine) found = idx; } catch (const std::exception&) { }
+                }
+                out += found ? std::to_string(found) : std::string("?");
+            }
         }
         return out;
     };
